@@ -5,6 +5,7 @@ package main
 import (
 	"encoding/binary"
 	"math/big"
+	"runtime"
 	"strings"
 )
 
@@ -358,6 +359,69 @@ func genC08Field(g *gen, f fieldAPI, idx int) {
 			ws := append([]*big.Int{}, vs...)
 			ws[i] = bad[g.rng.intn(len(bad))]
 			g.emit("C08 %s vecread %s", n, hexBytes(enc(ws, uint32(l))))
+		}
+	}
+	// work-splitter lattice of AsyncReadFrom: the validation / Montgomery-conversion pass is cut into t = runtime.NumCPU()
+	// chunks (the private `execute` of vector.go reads NumCPU, not GOMAXPROCS: the lengths below depend on the machine the
+	// check runs on). Lengths n = t*k + r for small k and EVERY remainder r in 0..t-1 (all the shapes of the chunk
+	// arithmetic between t and t^2), read synchronously and asynchronously and compared with the model element-wise;
+	// for a few lengths a non-canonical entry at EVERY index of the tail (the last t entries).
+	{
+		t := runtime.NumCPU()
+		if t < 4 {
+			t = 4
+		}
+		mk := func(l int) []*big.Int {
+			vs := make([]*big.Int, l)
+			for i := range vs {
+				vs[i] = pick()
+			}
+			return vs
+		}
+		tail := func(vs []*big.Int) {
+			l := len(vs)
+			for i := l - t; i < l; i++ {
+				if i < 0 {
+					continue
+				}
+				ws := append([]*big.Int{}, vs...)
+				ws[i] = bad[g.rng.intn(len(bad))]
+				g.emit("C08 %s vecread %s", n, hexBytes(enc(ws, uint32(l))))
+			}
+		}
+		// quick: k = 1 for every field and k in {2,3,5} spread over the fields (same template in the 23 packages)
+		ks := []int{1, []int{2, 3, 5}[idx%3]}
+		if g.thorough() {
+			ks = []int{1, 2, 3, 5, 7}
+		}
+		for _, k := range ks {
+			rt := g.rng.intn(t)
+			for r := 0; r < t; r++ {
+				vs := mk(t*k + r)
+				g.emit("C08 %s vecread %s", n, hexBytes(enc(vs, uint32(len(vs)))))
+				if (k == 1 && (g.thorough() || r == rt || r == t-1)) || (g.thorough() && r == rt) {
+					tail(vs)
+				} else if g.rng.coin() { // one non-canonical entry somewhere in the tail
+					vs[len(vs)-1-g.rng.intn(t)] = bad[g.rng.intn(len(bad))]
+					g.emit("C08 %s vecread %s", n, hexBytes(enc(vs, uint32(len(vs)))))
+				}
+			}
+		}
+		// every length up to (t+2)^2, alone and with a non-canonical last entry: the two 31-bit fields (thorough: and every
+		// 6th field); bn254_fr in quick alternating valid / non-canonical last entry
+		small := n == "koalabear" || n == "babybear"
+		both := small || (g.thorough() && (idx%6 == 0 || n == "bn254_fr"))
+		if both || n == "bn254_fr" {
+			for l := 0; l <= (t+2)*(t+2); l++ {
+				vs := mk(l)
+				if both || l%2 == 0 {
+					g.emit("C08 %s vecread %s", n, hexBytes(enc(vs, uint32(l))))
+				}
+				if l > 0 && (both || l%2 == 1) {
+					vs[l-1] = bad[g.rng.intn(len(bad))]
+					g.emit("C08 %s vecread %s", n, hexBytes(enc(vs, uint32(l))))
+				}
+			}
 		}
 	}
 	for i := 0; i < g.budget(10, 100); i++ { // random bytes with a small prefix
